@@ -1042,6 +1042,22 @@ func boundaryCases() []func(c *core.Ctx) {
 			})
 		}
 	}
+	// round 17: calls on the results of arithmetic, inside further arithmetic, comparisons and ternaries: the call applies to
+	// the value of the parenthesised expression (halves of either sign, which only arithmetic or the data produce)
+	rdata := map[string]model.Value{"a": model.Float(0.5), "b": model.Float(3.0), "f": model.Float(-0.5), "g": model.Float(2.5), "one": model.Float(1)}
+	av, bv, fv, gv := model.Var{Name: "a"}, model.Var{Name: "b"}, model.Var{Name: "f"}, model.Var{Name: "g"}
+	for _, fn := range []string{"round", "ceil", "floor", "abs", "int"} {
+		call := func(x model.Expr) model.Expr { return model.Call{X: x, Name: fn} }
+		for _, x := range []model.Expr{model.Paren{X: bin("-", av, bv)}, fv, gv, model.Paren{X: model.Unary{Op: "-", X: gv}}, model.Paren{X: bin("*", fv, lit(model.Float(3.0)))}, model.Paren{X: bin("-", fv, model.Var{Name: "one"})},
+			model.Paren{X: bin("/", gv, model.Paren{X: model.Unary{Op: "-", X: lit(model.Float(1.0))}})}} {
+			add(call(x), rdata)
+			add(bin("+", bin("*", call(x), lit(model.Int(2))), lit(model.Int(1))), rdata)
+			add(model.Ternary{C: bin("<", call(x), lit(model.Int(0))), A: lit(model.Str("neg")), B: lit(model.Str("not"))}, rdata)
+		}
+		out = append(out, func(c *core.Ctx) {
+			judgeProgram(c, []model.Stmt{model.Assign{Name: "kept", E: model.Unary{Op: "-", X: av}}, model.Text{S: "<"}, model.Print{E: call(model.Var{Name: "kept"})}, model.Text{S: ">"}}, rdata, "boundary", false)
+		})
+	}
 	add(model.Var{Name: "nope"}, nil)
 	add(bin("+", lit(model.Int(1)), model.Var{Name: "nope"}), nil)
 	add(model.Ternary{C: lit(model.Bool(true)), A: lit(model.Int(1)), B: model.Var{Name: "nope"}}, nil)
